@@ -32,12 +32,18 @@ void trace_get(unsigned i, int* fin, unsigned* cat, unsigned long long* left, un
   *start = r.start; *len = r.len; *head = r.head; *rule = r.rule; *stored = (unsigned long long)r.stored;
 }
 int run_parse(float* tag, float* dep, unsigned length, unsigned* roots, unsigned nroots, void* bcb, void* ucb, py_final fin, py_scaffold sc, void* fargs, void* cache,
-              unsigned num_tags, float unary_penalty, float beta, int use_beta, unsigned pruning_size, unsigned nbest, unsigned max_step) {
+              unsigned num_tags, float unary_penalty, float beta, int use_beta, unsigned pruning_size, unsigned nbest, unsigned max_step,
+              float* cfg_f_out, unsigned* cfg_u_out) {
   std::unordered_set<unsigned> rs(roots, roots + nroots);
   config cfg{num_tags, unary_penalty, beta, (bool)use_beta, pruning_size, nbest, max_step};
   g_scaffold = sc; g_final = fin;
+  // parsing.pyx hands the SAME config struct to every sentence of a call: whatever parse_sentence leaves in it is what the
+  // next sentence sees, so the fields are copied back to the caller's object afterwards
+  struct writeback { config& c; float* f; unsigned* u;
+    ~writeback() { if (f) { f[0] = c.unary_penalty; f[1] = c.beta; }
+                   if (u) { u[0] = c.num_tags; u[1] = c.use_beta; u[2] = c.pruning_size; u[3] = c.nbest; u[4] = c.max_step; } } } wb{cfg, cfg_f_out, cfg_u_out};
   try { return (int)parse_sentence(tag, dep, length, rs, bcb, ucb, c_final, c_scaffold, fargs, (cache_type*)cache, &cfg); }
-  catch (std::exception& e) { return -1; }
+  catch (std::exception& e) { if (std::getenv("DEPCCG_VERIF_DEBUG")) fprintf(stderr, "verif-driver: C++ exception: %s\n", e.what()); return -1; }
 }
 // accessors (compiled against the real struct, so a layout change cannot silently skew them)
 int item_fin(void* p) { return ((parsing::cell_item*)p)->fin; }
